@@ -57,10 +57,15 @@ def opSrvReq (args : List SExp) : Option OpResult := do
     -- path is added or removed (C12: the level is the depth below the prefix, with or without a trailing slash)
     let strip (got : String) : String :=
       if got.endsWith " altered-path" then String.ofList (got.toList.take (got.length - 13))
-      else if got.endsWith " slash-dependent" then String.ofList (got.toList.take (got.length - 16)) else got
+      else if got.endsWith " slash-dependent" then String.ofList (got.toList.take (got.length - 16))
+      else if got.endsWith " options-not-by-level" then String.ofList (got.toList.take (got.length - 21)) else got
     let c12p : String → List (String × String) := fun got =>
       if got.endsWith " altered-path" then [("C12", s!"{r.method}-backend-called-with-an-altered-path")]
-      else if got.endsWith " slash-dependent" then [("C12", s!"{r.method}-level-operation-depends-on-the-trailing-slash")] else []
+      else if got.endsWith " slash-dependent" then [("C12", s!"{r.method}-level-operation-depends-on-the-trailing-slash")]
+      -- `options-not-by-level`: the Allow set of an OPTIONS answer, or whether an object was looked up for it, is not what
+      -- the depth of the path below the prefix prescribes (object depth: the object's methods; any other depth: the
+      -- collection-side methods and no object lookup)
+      else if got.endsWith " options-not-by-level" then [("C12", "OPTIONS-answer-does-not-follow-the-level")] else []
     pure ⟨impl, fun got => judgeOutcome (malformed r) r.method (strip got) ++ c12 (strip got) ++ c12p got⟩
   | _ => none
 
